@@ -174,6 +174,11 @@ class InterSystemRecurrenceNetwork(InteractingNetworks):
                 self.x_embedded = self.x
                 self.y_embedded = self.y
 
+            #  the nodes of the network are the (embedded) state vectors
+            self.N_x = self.x_embedded.shape[0]
+            self.N_y = self.y_embedded.shape[0]
+            self.N = self.N_x + self.N_y
+
             #  Get threshold or recurrence rate from **kwds, construct
             #  ISRN accordingly
             threshold = kwds.get("threshold")
